@@ -3,7 +3,7 @@ from registry_common import COMMON_ASSUME
 ENTRY = dict(
     title="Arbitrary line noise causes only protocol errors and bounded loss",
     design_ref="DESIGN.md section 6 / C14",
-    prop_modules=["C14", "C14Chunks", "TieFrame", "TieReader", "TieChunks"],
+    prop_modules=["C14", "C14Chunks", "C14History", "TieFrame", "TieReader", "TieChunks"],
     technique="Lean 4 theorems over all byte strings (progress, bounded demand, re-synchronisation by induction on the noise) + refutation witness for finding F2 + correspondence on noise corpora incl. a real AsyncProtocol producer",
     level_text=(
         "Proof over ALL byte strings: `C14.outcomes`, `C14.connLost_iff`, `C14.progress` (>= 1 byte per call, remainder is a suffix), "
@@ -22,6 +22,8 @@ ENTRY = dict(
         "producer loop keeps running": "theorem (C09Producer.producer_continues, stops_only_on_loss, producer_survives_noise: for EVERY byte stream the producer machine makes every read() of readAll and ends only at the end of the stream / a timeout / a write loss — never on a protocol error) + correspondence (real AsyncProtocol.frame_producer vs the machine at every quiescent point, harness/producer.py)",
         "frames delivered after the noise reach the application (whole connection: producer and consumers), also when the noise contains checksum-valid stray frames from the non-controller addresses 0x00 / 0x56":
             "correspondence (default AsyncProtocol fed noise + strays + a run; expected count from the reader model `read`; that every frame the reader hands out is handled or contained without losing a consumer is C09.never_stalls / no_consumer_dies / delivered_exactly_once)",
+        "a reader / a connection in a process with HISTORY -- earlier read() calls abandoned (READER_TIMEOUT through the real @timeout, a caller's wait_for, cancellation; a connection ended by reader time-out / cancel_tasks / shutdown() while its producer was reading) at EVERY suspension point of read(), the Frame.create executor hop with its job still pending included (the awaiting task is cancelled and asyncio cancels the awaited run_in_executor future with it; harness/vloop.py's executor is checked against the real thread-pool executor in this respect on every run): every later call -- on the same reader, on new readers, on a second connection of the same protocol object and of a fresh one in the same process, fed noise and valid frames of the SAME handler module and of the other two -- raises only the documented errors or delivers, and the later connection's producer is alive, connected and delivers":
+            "theorem (C14.history_leaves_no_residue: for ALL histories `pre` and continuations `post`, sessionX [] (pre ++ post) = events(pre) ++ sessionX rest post with rest = what arrived minus what the completed and abandoned calls consumed; C14.next_call_after_history_is_read: the next call that can complete is readFrame of exactly that remainder, so C14.outcomes / progress / bounded_consumption / resync_partial apply to it; C01.sessionX_calls_are_reads) + correspondence (harness/history.py: each history runs in a FRESH python process, so that whatever the library keeps outside the reader object -- module / class level, the protocol object -- is in its initial state and the first use of a handler module can be the abandoned one; events compared with sessionX, any exception outside the ProtocolError / OSError / TimeoutError families on a call nobody cancelled (CancelledError included) is a failing input = the session history; producer alive + connected + deliveries = reader model on the later stream). The model has no process-level state by construction; that the implementation has none that matters is what this correspondence checks",
         "re-synchronisation after noise": "theorem under noInner68 (C14.resync_partial); full statement refuted (F2, C14.resync_full_false) + correspondence (runs of frames of every length 10..70, judged on every hand-over of the stream: all buffered at once and lazily in chunks; a lost run is tagged F2 only when the frame has an inner start delimiter AND the reader model loses the run on that very input)",
     },
     public_routes={
@@ -29,6 +31,7 @@ ENTRY = dict(
         "AsyncProtocol.connection_established -> frame_producer": "driven + compared with the producer machine at every quiescent point (write faults, puts, foreign disconnect, end of stream / silence)",
         "whole connection (producer + default 3 consumers) after noise": "driven (run's frames must reach the ecoMAX device)",
         "on_connection_lost callbacks": "driven (announced at most once)",
+        "FrameReader.read() / AsyncProtocol.connection_established on a reader, protocol object and PROCESS with abandoned earlier calls (incl. at Frame.create, executor job pending)": "driven in fresh processes + compared with sessionX / the reader model and judged (harness/history.py)",
         "open_tcp_connection / open_serial_connection": "not driven here (C11)",
     },
     assumptions=COMMON_ASSUME,
